@@ -112,4 +112,9 @@ CLAIMED["C10"] = {
     "note": "Trusted: Coq kernel; Spec/Context.v's naming (vue import -> imported name; generated temporary -> order of first occurrence; other identifiers -> name + order of scope); hand model tied differentially. The step from the theorem to alone-vs-in-context (the naming counters differ, renaming temporaries consistently) is covered by the paired runs only. Pragma annotations are module-wide (C15) and not used as distractors.",
     "technique": "Coq proof (binary/relational induction over the nested AST: non-interference of the unread state) + paired-run oracle on real outputs",
 }
-NOT_CLAIMED = {p: UNDER for p in ["C06"]}
+CLAIMED["C06"] = {
+    "text": "Theorems C06_helper_recorded (a helper identifier only comes from import_from_vue, which records the import), C06_nothing_dropped (a lowering of any element never drops a recorded import or pending declaration; the counter behind temporaries' contexts only grows - induction over the nested AST), C06_slot_temporary_declared / C06_capture_declared (a temporary is put on the pending list when created), C06_declared_at_list_head / C06_pending_all_emitted (a statement list declares everything pending at its end at its head, starts empty, restores the enclosing list's pending declarations), C06_module_imports, C06_contexts_distinct. The FULL statement is decided on the REAL output of every generated module (JSX in every syntactic context x lowerings needing helpers/temporaries x user bindings named like generated ones) by a binding analysis: each generated identifier declared exactly once, in an enclosing list/function, before every eager use; every generated declaration used; no new free variable.",
+    "note": "Trusted: Coq kernel; tools/scope.py (block/function/class/catch/switch scoping, hoisting of functions and imports, sequential let/const, closures) as the reading of JavaScript scoping; identity = name + syntax context, so collisions after printing are SWC hygiene's business; hand model tied differentially. Partial: the composition of the proved pieces over the whole traversal is decided per case by the analysis. Known finding hoisted_capture_tdz (pinned by a fixture).",
+    "technique": "Coq proofs (monotonicity induction over the nested AST; drain/import lemmas) + binding analysis of real outputs",
+}
+NOT_CLAIMED = {}
